@@ -478,6 +478,11 @@ class World(BaseWorld):
         op = {"op": "enum", "a": a, "form": rng.choice(forms)}
         if op["form"] in ("to_pubo", "to_puso") and A.t not in DEG2 and rng.random() < 0.5:
             op["deg"] = rng.choice([2, 3])
+        if A.t not in DEG2 and op["form"] != "to_enumerated" and rng.random() < 0.3:
+            # the rarely passed optional arguments of the reduction: an explicit penalty (constant or callable) and pair hints
+            op["lam"] = rng.choice(["big_const", "callable"])
+            if len(self.labels) >= 2 and rng.random() < 0.6:
+                op["pairs"] = [[enc_label(x) for x in rng.sample(self.labels, 2)] for _ in range(rng.randint(1, 2))]
         return op
 
     # ================================================================ execution
@@ -1173,11 +1178,12 @@ ALPHABETS = {
     "str": ["a", "b", "c", "x0", "y"],
     "tuple": [("v", 0), ("v", 1), ("w", 0), ("a", 2)],
     "mixed": [0, 1, "a", "b", ("v", 0)],
+    "negint": [-2, -1, 0, 1, 3],
 }
 
 
 def gen_cfg(rng, prop, tier):
-    labels = rng.choice(["int", "int", "str", "tuple", "mixed"])
+    labels = rng.choice(["int", "int", "str", "tuple", "mixed", "negint"])
     alpha = list(ALPHABETS[labels])
     n = rng.randint(2, len(alpha))
     alpha = alpha[:n] if labels == "int" else rng.sample(alpha, n)
